@@ -81,6 +81,15 @@ Theorem memattr_get_last_set_included :
 Proof. exact set_then_get_included. Qed.
 Print Assumptions memattr_get_last_set_included.
 
+(* the hypothesis [pd] is an invariant: it is kept by every set_value whose
+   cpuset is included in a stored one or disjoint from all of them ([compat]),
+   and by the refresh that follows restrict *)
+Theorem memattr_disjointness_preserved :
+  (forall q v is, pd is -> compat is q -> pd (upsert_init q v is)) /\
+  (forall t is, pd is -> pd (filter_map (refresh_imi t) is)).
+Proof. split; [exact upsert_init_pd|exact refresh_imi_pd]. Qed.
+Print Assumptions memattr_disjointness_preserved.
+
 (* ... and it changes nothing else *)
 Theorem memattr_set_frame_attr :
   forall s id o init il v id' tgt' init' flags',
@@ -209,6 +218,17 @@ Theorem memattr_survives_dup :
 Proof. intros. split; [now apply dup_Inv|now apply dup_tgs]. Qed.
 Print Assumptions memattr_survives_dup.
 
+(* ---- default nodeset ---- *)
+Theorem default_nodeset_disjoint_existing :
+  forall s set,
+  NoDup (map o_os (numa_nodes (m_topo s))) ->
+  default_nodeset s 0 = Ok set ->
+  (forall i, mem i set = true -> exists n, In n (numa_nodes (m_topo s)) /\ o_os n = i) /\
+  (forall n m, In n (numa_nodes (m_topo s)) -> In m (numa_nodes (m_topo s)) -> o_os n <> o_os m ->
+     mem (o_os n) set = true -> mem (o_os m) set = true -> bs_disjoint (o_cpuset n) (o_cpuset m)).
+Proof. exact default_nodeset_spec. Qed.
+Print Assumptions default_nodeset_disjoint_existing.
+
 (* ================================================================== *)
 (* non-vacuity and refutations: 1 machine, 2 NUMA nodes (PUs 0-1 and 2-3), 4 PUs *)
 
@@ -278,6 +298,10 @@ Example ex_results :
   snd (set_value s 0 (Some ex_numa1) None 0 5) = Err EINVAL /\
   local_numanodes s (Some (LCpu (Some (bs_of_N 1)))) HWLOC_LOCAL_NUMANODE_FLAG_LARGER_LOCALITY 4 false = Ok (1, [10]).
 Proof. vm_compute. repeat split. Qed.
+
+Example ex_default_nodeset :
+  NoDup (map o_os (numa_nodes ex_topo)) /\ default_nodeset (init_state ex_topo) 0 = Ok (bs_of_N 3).
+Proof. split; [cbn; repeat constructor; cbn; intuition discriminate|vm_compute; reflexivity]. Qed.
 
 (* hypotheses of memattr_get_last_set_included are met by a real state *)
 Example ex_included_hyps :
